@@ -160,6 +160,10 @@ class BMSMap(Map[BMSNoteList, BMSHitList, BMSHoldList, BMSBpmList], BMSMapMeta):
             )
 
     def _read_file_header(self, data: dict):
+        # Header commands are case-insensitive, as the #BPMxx / #WAVxx tables below already are
+        named = (b"ARTIST", b"TITLE", b"PLAYLEVEL", b"LNOBJ", b"BPM")
+        data = {(k.upper() if k.upper() in named else k): v for k, v in data.items()}
+
         self.artist = data.get(b"ARTIST", "")
         self.title = data.get(b"TITLE", "")
         self.version = data.get(b"PLAYLEVEL", "")
